@@ -148,7 +148,7 @@ Theorem C16_merge_output :
   forall merge2 flow jview estr a tty srcs stdin_src nerr vl n',
     merges_clean merge2 ->
     ma_mode a = CondenseAll ->
-    merge_validate a (List.length srcs) (map s_name srcs) tty = (nerr, vl, n') -> nerr = 0 ->
+    merge_validate a (List.length srcs) (map s_name srcs) tty = (nerr, vl, n') -> nerr = 0 -> ma_config_err a = None ->
     Forall (src_loads estr) srcs ->
     (stdin_waits_m a tty srcs = true -> src_loads estr stdin_src) ->
     ma_backup a && negb (ma_overwrite_exists a) = false ->
@@ -172,7 +172,7 @@ Print Assumptions C16_merge_error_no_output.
 
 Definition ex_merge2 (l r : nat) : option ufam * nat := (None, 10 * l + r).
 Definition ex_args_merge :=
-  mkmerge true (mknoise false false false) false false "" false "" false false FAuto CondenseAll "".
+  mkmerge true (mknoise false false false) false false "" false "" false false FAuto CondenseAll "" None.
 Example C16_merge_example :
   cli_merge_main ex_merge2 (fun _ => false) (fun d => d) 9 ex_args_merge true
     [ex_src "a.yaml" [1; 2]; ex_src "b.yaml" [3]] (ex_src "-" []) =
@@ -189,7 +189,7 @@ Proof. vm_compute. reflexivity. Qed.
 Example C16_merge_example_stdin_only :
   (* the repaired case: no YAML_FILE, a waiting STDIN supplies the documents *)
   cli_merge_main ex_merge2 (fun _ => false) (fun d => d) 9
-    (mkmerge false (mknoise false false false) false false "" false "" false false FAuto CondenseAll "")
+    (mkmerge false (mknoise false false false) false false "" false "" false false FAuto CondenseAll "" None)
     false [] (ex_src "-" [4; 5]) =
   mkrun (Exit 0) [ODump false [45]] [].
 Proof. vm_compute. reflexivity. Qed.
@@ -213,7 +213,7 @@ Print Assumptions C16_merge_docs_is_library.
 Theorem C16_merge_modes_output :
   forall merge2 flow jview estr a tty srcs stdin_src nerr vl n',
     ma_mode a <> CondenseAll ->
-    merge_validate a (List.length srcs) (map s_name srcs) tty = (nerr, vl, n') -> nerr = 0 ->
+    merge_validate a (List.length srcs) (map s_name srcs) tty = (nerr, vl, n') -> nerr = 0 -> ma_config_err a = None ->
     Forall (src_loads estr) srcs ->
     (stdin_waits_m a tty srcs = true -> src_loads estr stdin_src) ->
     ma_backup a && negb (ma_overwrite_exists a) = false ->
@@ -231,7 +231,7 @@ Print Assumptions C16_merge_modes_output.
 Theorem C16_merge_modes_error :
   forall merge2 flow jview estr a tty srcs stdin_src nerr vl n',
     ma_mode a <> CondenseAll ->
-    merge_validate a (List.length srcs) (map s_name srcs) tty = (nerr, vl, n') -> nerr = 0 ->
+    merge_validate a (List.length srcs) (map s_name srcs) tty = (nerr, vl, n') -> nerr = 0 -> ma_config_err a = None ->
     Forall (src_loads estr) srcs ->
     (stdin_waits_m a tty srcs = true -> src_loads estr stdin_src) ->
     forall out n,
@@ -247,7 +247,7 @@ Theorem C16_merge_across_output :
   forall merge2 flow jview estr a tty srcs stdin_src nerr vl n',
     merges_clean merge2 ->
     ma_mode a = MergeAcross ->
-    merge_validate a (List.length srcs) (map s_name srcs) tty = (nerr, vl, n') -> nerr = 0 ->
+    merge_validate a (List.length srcs) (map s_name srcs) tty = (nerr, vl, n') -> nerr = 0 -> ma_config_err a = None ->
     Forall (src_loads estr) srcs ->
     (stdin_waits_m a tty srcs = true -> src_loads estr stdin_src) ->
     ma_backup a && negb (ma_overwrite_exists a) = false ->
@@ -266,7 +266,7 @@ Theorem C16_merge_matrix_output :
   forall merge2 flow jview estr a tty srcs stdin_src nerr vl n',
     merges_clean merge2 ->
     ma_mode a = MatrixMerge ->
-    merge_validate a (List.length srcs) (map s_name srcs) tty = (nerr, vl, n') -> nerr = 0 ->
+    merge_validate a (List.length srcs) (map s_name srcs) tty = (nerr, vl, n') -> nerr = 0 -> ma_config_err a = None ->
     Forall (src_loads estr) srcs ->
     (stdin_waits_m a tty srcs = true -> src_loads estr stdin_src) ->
     ma_backup a && negb (ma_overwrite_exists a) = false ->
@@ -280,7 +280,7 @@ Proof. exact merge_matrix_output. Qed.
 Print Assumptions C16_merge_matrix_output.
 
 Definition ex_args_mode (m : Cli.mdmode) :=
-  mkmerge true (mknoise false false false) false false "" false "" false false FAuto m "".
+  mkmerge true (mknoise false false false) false false "" false "" false false FAuto m "" None.
 Definition ex_mode_srcs := [ex_src "a.yaml" [1; 2]; ex_src "b.yaml" [3; 4; 5]].
 Example C16_merge_across_example :
   cli_merge_main ex_merge2 (fun _ => false) (fun d => d) 9 (ex_args_mode MergeAcross) true ex_mode_srcs (ex_src "-" []) =
